@@ -73,6 +73,8 @@ let builder_case ?(timed=false) id ops_s tf_s =
     obs id "TNI" (let l = iter_insertion_order gg in
                   if l = [] then "-" else
                   String.concat " " (List.mapi (fun i x -> Printf.sprintf "%d:%d" i (int_of_nat x)) l));
+    obs id "CLI" (str_ints io); obs id "CLR" (str_ints ro); obs id "CFI" (str_ints io); obs id "CFR" (str_ints ro);
+    obs id "CGI" (str_ints io); obs id "CGR" (str_ints ro); obs id "CEQ" "1";
     obs id "PM1" (str_ints mo); obs id "PM2" (str_ints mo); obs id "PM3" (str_ints mo); obs id "PM4" (str_ints io);
     let ks = ints_of ',' tf_s in
     obs id "TF" (try_line mo ks); obs id "TE" (try_line mo ks);
@@ -88,7 +90,8 @@ let builder_case ?(timed=false) id ops_s tf_s =
        obs id "GI" (str_ints (gi_iter gi)); obs id "GR" (str_ints (gi_iter_rev gi));
        let gi2 = gi_de (gi_ser gi) in
        obs id "GS" (if gi_eqb gi gi2 then "1" else "0");
-       obs id "GSE" (str_edges gi2.gi_edges); obs id "GSI" (str_ints (gi_iter gi2)))
+       obs id "GSE" (str_edges gi2.gi_edges); obs id "GSI" (str_ints (gi_iter gi2));
+       obs id "GS2" (if gi_eqb gi gi2 then "1 1" else "0 0"))
 
 let pair_case id a_s b_s =
   let side s =
